@@ -51,6 +51,7 @@ FORMULAS = [
     "y ~ z + (1 | gn)",  # gn has missing values and is used by this formula only
     "y ~ 0 + x:s:h:g2 + (0 + s:h | g)",
     "y ~ bs(x, knots=kn_u) + C(k, levels=lv_k):z",  # kn_u: the caller's own, unsorted, array
+    "y ~ ni + scale(ni):h + (ni | g2)",  # ni: nullable Int64
     "y ~ x + C(k) + (1 | k)",  # k holds the same numbers as int in some frames and as float in frame 1: labels k[3] / k[3.0]
 ]
 MODES = ["error", "warning", "silent"]
@@ -171,6 +172,9 @@ def make_frames():
         rng.shuffle(xz)
         df["xz"] = xz if j != 2 else xz + 1.0  # exactly zero mean, except in frame 2
         df["gn"] = df["g"].where(~df.index.isin([0, 3, n - 1]))
+        # nullable dtypes, one used by a formula and one never used (with a missing value): dtypes and pd.NA stay the caller's
+        df["ni"] = pd.array((np.arange(n) * 3) % 7, dtype="Int64")
+        df["nu"] = pd.array([None if r == 2 else float(r) for r in range(n)], dtype="Float64")
         if j == 1:
             df["k"] = df["k"].astype(float)
         if j == 1:
